@@ -7,6 +7,26 @@ Import ListNotations.
 Local Close Scope Q_scope.
 Local Open Scope nat_scope.
 
+(** frame conditions: sampling leaves stored priorities and the tracked maximum unchanged (also for the
+    prioritized subtrajectory buffer, whose mask only restricts the draw), adding changes only the written slots;
+    writing the masked priorities back into the store is refuted *)
+Theorem C08_sample_frame : forall p n mask us,
+  prio (fst (pb_sample p n mask us)) = prio p /\ maxp (fst (pb_sample p n mask us)) = maxp p.
+Proof. exact pb_sample_frame. Qed.
+Print Assumptions C08_sample_frame.
+Theorem C08_subtraj_sample_frame : forall b us,
+  p_sb (fst (sbp_sample_starts b us)) = p_sb b /\ prio (p_pb (fst (sbp_sample_starts b us))) = prio (p_pb b) /\
+  maxp (p_pb (fst (sbp_sample_starts b us))) = maxp (p_pb b).
+Proof. exact sbp_sample_frame. Qed.
+Print Assumptions C08_subtraj_sample_frame.
+Theorem C08_add_frame : forall p idxs j, ~ In j idxs -> nth j (prio (pb_init_prio p idxs)) 0%Q = nth j (prio p) 0%Q.
+Proof. exact pb_init_prio_frame. Qed.
+Print Assumptions C08_add_frame.
+Theorem C08_sample_inplace_refuted :
+  exists p n mask us i, (0 < nth i (prio p) 0)%Q /\ (nth i (prio (fst (pb_sample_inplace p n mask us))) 0 == 0)%Q.
+Proof. exact pb_sample_inplace_refuted. Qed.
+Print Assumptions C08_sample_inplace_refuted.
+
 (** Index i is drawn exactly when u*T falls in (c_{i-1}, c_i], an interval of length
     p_i*m_i: probability p_i m_i / T over valid entries only; never a masked-out entry,
     a zero-priority entry or an entry beyond the filled region. *)
